@@ -380,3 +380,30 @@ B("C12", "query value from the fragment", NET, "                unquote_to_bytes
 B("C12", "domain child sized by decoded host", NET, 'out.append(Node("network.domain", host, "", offset, offset + host_length))', 'out.append(Node("network.domain", host, "", offset, offset + len(host)))', "R2-layout")
 N("C12", "offsets via explicit variables", NET, "        offset += len(url.scheme) + 1  # scheme + :\n", "        scheme_len = len(url.scheme)\n        offset += scheme_len + 1  # scheme + :\n")
 N("C12", "start/end keywords vs positionals", NET, "                start=offset,\n                end=(offset := offset + len(url.query)),\n", "                \"\",\n                offset,\n                (offset := offset + len(url.query)),\n")
+
+# ------------------------------------------------------------------ C01
+PEF = D + "pe_file.py"
+PSF = D + "powershell.py"
+B("C01", "find_atob handler catches the wrong class", B64, "            out.append(Node(\"javascript.string\", b64, \"encoding.base64\", *match.span()))\n        except binascii.Error:", "            out.append(Node(\"javascript.string\", b64, \"encoding.base64\", *match.span()))\n        except KeyError:", "R1-exception-escape")
+B("C01", "single-byte key guard removed", XH, "    if not 0 <= xorkey <= 255:\n        return node  # Not a single byte key, xoring with it would not give bytes\n", "", "R1-exception-escape")
+B("C01", "XML hex alternative admits non-hex", XMLF, "x[a-f0-9]{2}", "x[a-z0-9]{2}", "R1-exception-escape")
+B("C01", "empty keyword guard removed", KW, "    if not keyword:\n        return []\n", "", "R2-termination")
+B("C01", "index += 1 only when nothing matched", D + "vba.py", "        elif data[index] == brace_ord:\n            balance += 1\n        index += 1\n", "        elif data[index] == brace_ord:\n            balance += 1\n        else:\n            index += 1\n", "R2-termination")
+B("C01", "PE header length guard removed", PEF, "        if len_data < e_elfanew_location + E_ELFANEW_SIZE:\n            continue\n", "", "R1-exception-escape")
+B("C01", "utf-16 errors=ignore removed in shell", SH, '.decode("utf-16", errors="ignore").encode()', '.decode("utf-16").encode()', "R1-exception-escape")
+B("C01", "is_ip check removed", NET, "        if not is_ip(ip):\n            continue\n", "", "R1-exception-escape")
+B("C01", "recursion without decrement", MD, "self.scan_node(hit, depth_limit - 1)", "self.scan_node(hit, depth_limit)", "R2-termination")
+B("C01", "continuation end guard removed", SH, "                if i >= len(cmd):\n                    break  # The line continuation is the last thing in the command\n", "", "R1-exception-escape")
+B("C01", "two-part guard removed", SH, "            if len(parts) != 2:\n                continue  # A line continuation joined the switch to its argument, nothing to split off\n", "", "R1-exception-escape")
+B("C01", "PE end not clamped", PEF, "end = min(mz_offset + size, len_data)", "end = mz_offset + size", "R2-termination")
+B("C01", "url not validated before parsing", NET, "        if not is_url(url):\n            continue\n", "", "R1-exception-escape")
+B("C01", "powershell bytes handler removed", PSF, "        try:\n            binary = bytes(decode_byte(byte) for byte in match.group().split(b\",\"))\n        except ValueError:\n            continue  # byte not in 0-256\n", "        binary = bytes(decode_byte(byte) for byte in match.group().split(b\",\"))\n", "R1-exception-escape")
+B("C01", "is_ip no longer catches UnicodeDecodeError", NET, "    except (AddressValueError, UnicodeDecodeError):\n        return False\n    return True", "    except AddressValueError:\n        return False\n    return True", "R1-exception-escape")
+B("C01", "find_urls reads data[start + len]", NET, "        prev = data[start - 1]\n", "        prev = data[end]\n", "R1-exception-escape")
+B("C01", "strip_carets loops to the last byte", SH, "    while i < len(cmd) - 1:\n", "    while i < len(cmd):\n", "R1-exception-escape")
+B("C01", "get_xorkey uses an unchecked search", XH, "    xorkey = re.search(XOR_RE, data)\n    if xorkey:\n        return int(xorkey.group(1))\n    return None", "    xorkey = re.search(XOR_RE, data)\n    return int(xorkey.group(1))", "R1-exception-escape")
+B("C01", "keyword search stops advancing", KW, "        start = data.find(keyword, start + len(keyword))\n", "        start = data.find(keyword, start)\n", "R2-termination")
+N("C01", "superclass handler", B64, "        except binascii.Error:\n            continue\n    return out\n\n\n@decoder\ndef find_base64", "        except ValueError:\n            continue\n    return out\n\n\n@decoder\ndef find_base64")
+N("C01", "chr handler without the subclass", CHRF, "except (ValueError, UnicodeEncodeError):", "except ValueError:")
+N("C01", "regex rewritten with [0-9]", XH, 'XOR_RE = rb"(?i)-b?xor\\s*(\\d{1,3})"', 'XOR_RE = rb"(?i)-b?xor\\s*([0-9]{1,3})"')
+N("C01", "loop bound rewritten", SH, "    while i < len(cmd) - 1:\n", "    while i <= len(cmd) - 2:\n")
